@@ -413,7 +413,7 @@ _TRUNC_OK = {"year_of_century": "True", "year_of_decade": "True",
              "month_of_year": "1 <= fld('month_of_year') and fld('month_of_year') <= 12",
              "day_of_month": "1 <= fld('day_of_month') and fld('day_of_month') <= MAXDIM",
              "day_of_year": "1 <= fld('day_of_year') and fld('day_of_year') <= SUML",
-             "week_of_year": "1 <= fld('week_of_year') and fld('week_of_year') <= 53",
+             "week_of_year": "1 <= fld('week_of_year') and fld('week_of_year') <= MAXW",
              "day_of_week": "1 <= fld('day_of_week') and fld('day_of_week') <= 7"}
 
 
